@@ -18,7 +18,7 @@ ASSUMPTIONS = ['worlds enumerated (<= 6 atoms) only to certify that a rewrite pr
 TRUSTED = []
 FLOOR = {'quick': 300, 'thorough': 3000}
 BUDGET = {'quick': 100, 'thorough': 1500}
-N = {'quick': 700, 'thorough': 10000}
+N = {'quick': 800, 'thorough': 12000}
 TRANSFORMS = ['rekey0', 'rekey-sparse', 'reorder', 'reverse', 'rename', 'signature', 'rewrite-base',
               'rewrite-query', 'query-key', 'compose']
 REQUIRED = {'quick': {'t_' + t: 20 for t in TRANSFORMS}, 'thorough': {'t_' + t: 200 for t in TRANSFORMS}}
@@ -67,9 +67,10 @@ def run_case(case):
             d = cnt.setdefault(k, {})
             d[sub] = d.get(sub, 0) + n
     weakly = rng.random() < 0.3
-    sig, conds, fam = gen.gen_base(rng, 'weak_or_strong' if weakly else 'strong')
+    sig, conds, fam = gen.gen_base(rng, 'weak_or_strong' if weakly else 'strong',
+                                   family=rng.choice([None, None, None, 'multiex', 'chain', 'conjcons', 'indep']))
     n = len(conds)
-    qs = gen.gen_queries(rng, sig, conds, 6, extra_atom_p=0.0)
+    qs = gen.gen_queries(rng, sig, conds, 6, extra_atom_p=0.0, p_tie=0.4)
     if rng.random() < 0.5 and conds:
         qs[0] = conds[0]                     # the first rule as a query (direct inference)
     mode = 'extended' if weakly else 'strict'
